@@ -432,7 +432,7 @@ func runC06(c *Ctx, r *Rec) {
 					okRead = true // X.GetNext().RemoveHead()
 				}
 			}
-			wrap := iterObj != nil && wrapCheckFollows(info, lg, readLoop, iterObj, getNext, okObj)
+			wrap := iterObj != nil && wrapCheckFollows(c, info, lg, readLoop, iterObj, getNext, okObj)
 			start := iterObj != nil && startsFromStart(info, gbody, readLoop, iterObj)
 			if iterObj != nil && !start && !touchesBefore(info, gbody, readLoop, iterObj) {
 				// the goroutine takes the iterator as it finds it: where does it stand when the
@@ -546,7 +546,7 @@ func runC06(c *Ctx, r *Rec) {
 				r.skip("D3-distribution", construct, c.pos(readLoop.Pos()), "the read loop does not advance the output iterator with one GetNext in its own body")
 				continue
 			}
-			wrap := getNext != nil && wrapCheckFollows(info, lg, readLoop, iterObj, getNext, okObj)
+			wrap := getNext != nil && wrapCheckFollows(c, info, lg, readLoop, iterObj, getNext, okObj)
 			dom := getNext != nil && lg.nodeDominates(readCall, getNext)
 			r.check(okOne && nAdds == 1 && wrap && dom, "D3-distribution", construct, c.pos(readLoop.Pos()),
 				"each value read goes to exactly the next output in round-robin order; wrap check after every GetNext",
@@ -631,7 +631,7 @@ func cyclicIterator(info *types.Info, loop *ast.ForStmt) (types.Object, *ast.Cal
 
 // wrapCheckFollows: every path from the GetNext call to the next iteration
 // passes `if !X.HasNext() { X.ToStart() }`.
-func wrapCheckFollows(info *types.Info, g *FG, loop *ast.ForStmt, iter types.Object, getNext *ast.CallExpr, readOK types.Object) bool {
+func wrapCheckFollows(c *Ctx, info *types.Info, g *FG, loop *ast.ForStmt, iter types.Object, getNext *ast.CallExpr, readOK types.Object) bool {
 	// No path from just after the GetNext back to the start of the loop body may both avoid
 	// X.ToStart() and avoid the edge on which X.HasNext() is known to be true: on such a path the
 	// iterator may sit at its end when GetNext is called again.
@@ -652,6 +652,14 @@ func wrapCheckFollows(info *types.Info, g *FG, loop *ast.ForStmt, iter types.Obj
 			if rx, mname, call, ok := methodCall(x); ok && mname == "ToSlot" && len(call.Args) == 1 && isObj(info, rx, iter) {
 				if tv, ok := info.Types[call.Args[0]]; ok && tv.Value != nil && tv.Value.String() == "0" {
 					return true
+				}
+			}
+			// a declared helper that does the wrap check on the iterator it is handed
+			if call, ok := x.(*ast.CallExpr); ok && c != nil {
+				for ai, a := range call.Args {
+					if isObj(info, a, iter) && wrapsItsArgument(c, call, ai) {
+						return true
+					}
 				}
 			}
 			return false
@@ -1163,4 +1171,64 @@ func iteratorStateAt(c *Ctx, info *types.Info, fd *ast.FuncDecl, iter types.Obje
 		})
 	}
 	return state
+}
+
+// wrapsItsArgument: the declared callee of call leaves the iterator it receives as argument ai
+// either with a next value or at its start, on every path (`if !it.HasNext() { it.ToStart() }`).
+func wrapsItsArgument(c *Ctx, call *ast.CallExpr, ai int) bool {
+	var hd *ast.FuncDecl
+	for _, role := range []string{"collection", "agent"} {
+		if info := c.info(role); info != nil {
+			if fn := calleeOf(info, call); fn != nil {
+				hd = c.declOf(fn)
+			}
+		}
+	}
+	if hd == nil || hd.Body == nil {
+		return false
+	}
+	hinfo := c.infoFor(hd)
+	if hinfo == nil {
+		return false
+	}
+	ps := paramObjs(hinfo, hd)
+	if ai >= len(ps) {
+		return false
+	}
+	p := ps[ai]
+	hg := newFG(hinfo, hd.Body)
+	moved := false
+	ast.Inspect(hd.Body, func(x ast.Node) bool {
+		for _, m := range []string{"GetNext", "GetPrevious", "ToEnd", "ToSlot"} {
+			if methodCallOn(hinfo, x, p, m) {
+				moved = true
+			}
+		}
+		return true
+	})
+	if moved {
+		return false
+	}
+	skip, _ := hg.exists(pathQuery{
+		from: point{hg.entry(), 0},
+		stop: func(n ast.Node) bool {
+			return nodeHas(n, func(x ast.Node) bool { return methodCallOn(hinfo, x, p, "ToStart") })
+		},
+		edgeOK: func(cond ast.Expr, pol bool) bool {
+			cd := ast.Unparen(cond)
+			for {
+				u, ok := cd.(*ast.UnaryExpr)
+				if !ok || u.Op != token.NOT {
+					break
+				}
+				cd, pol = ast.Unparen(u.X), !pol
+			}
+			if methodCallOn(hinfo, cd, p, "HasNext") && pol {
+				return false
+			}
+			return true
+		},
+		goalExit: func(kind int, _ *cfg.Block) bool { return kind == exitReturn },
+	})
+	return !skip
 }
